@@ -76,6 +76,15 @@ pub trait ReadValue {
 
     /// Return the current position of the reader.
     fn position(&self) -> u64;
+
+    /// Return the total length of the input in bytes, if known.
+    ///
+    /// When available this is used to reject length-delimited fields which
+    /// extend beyond the end of the input before any of their data is read,
+    /// skipped or allocated.
+    fn input_len(&self) -> Option<u64> {
+        None
+    }
 }
 
 /// A Protocol Buffers primitive reader that returns owned values.
@@ -85,6 +94,9 @@ pub trait ReadValue {
 #[derive(Default)]
 pub struct ValueReader<R> {
     inner: R,
+
+    /// Total length of the input, if known.
+    len: Option<u64>,
 }
 
 impl<R: BufRead + Seek + Position> ValueReader<R> {
@@ -94,21 +106,29 @@ impl<R: BufRead + Seek + Position> ValueReader<R> {
     /// for convenient wrappers for this which create readers from byte buffers
     /// and files.
     pub fn new(inner: R) -> Self {
-        Self { inner }
+        Self { inner, len: None }
     }
 }
 
 impl<T: AsRef<[u8]>> ValueReader<Cursor<T>> {
     /// Convenience method that creates a reader from a byte buffer.
     pub fn from_buf(buf: T) -> Self {
-        Self::new(Cursor::new(buf))
+        let len = buf.as_ref().len() as u64;
+        Self {
+            inner: Cursor::new(buf),
+            len: Some(len),
+        }
     }
 }
 
 impl ValueReader<ReadPos<BufReader<File>>> {
     /// Convenience method that creates a reader from a file.
     pub fn from_file(file: File) -> Self {
-        Self::new(ReadPos::new(BufReader::new(file)))
+        let len = file.metadata().ok().map(|meta| meta.len());
+        Self {
+            inner: ReadPos::new(BufReader::new(file)),
+            len,
+        }
     }
 }
 
@@ -136,6 +156,17 @@ impl<R: BufRead + Seek + Position> ReadValue for ValueReader<R> {
         &mut self,
         len: usize,
     ) -> Result<<Self::Types as FieldTypes>::Bytes, ProtobufError> {
+        if self.len.is_none() {
+            // The length of the input is unknown, so `len` has not been
+            // validated against it. Grow the buffer as data arrives instead
+            // of allocating whatever size the field claims to have.
+            let mut buf = Vec::new();
+            (&mut self.inner).take(len as u64).read_to_end(&mut buf)?;
+            if buf.len() != len {
+                return Err(std::io::Error::from(std::io::ErrorKind::UnexpectedEof).into());
+            }
+            return Ok(buf);
+        }
         let mut buf = vec![0; len];
         self.inner.read_exact(&mut buf)?;
         Ok(buf)
@@ -154,12 +185,25 @@ impl<R: BufRead + Seek + Position> ReadValue for ValueReader<R> {
         // length. Converting it with `as` would produce a negative offset and
         // seek backwards.
         let offset = i64::try_from(len).map_err(|_| ProtobufError::new(ErrorKind::Eof))?;
+        if self.len.is_none() && len > 0 {
+            // The length of the input is unknown and seeking past the end of
+            // a stream is not an error. Seek to the last byte of the field and
+            // read it, which fails if the field extends beyond the input.
+            self.inner.seek_relative(offset - 1)?;
+            let mut last = [0u8; 1];
+            self.inner.read_exact(&mut last)?;
+            return Ok(());
+        }
         self.inner.seek_relative(offset)?;
         Ok(())
     }
 
     fn position(&self) -> u64 {
         self.inner.position()
+    }
+
+    fn input_len(&self) -> Option<u64> {
+        self.len
     }
 }
 
@@ -252,6 +296,10 @@ impl<R: BufRead> Position for ReadPos<R> {
 pub(crate) struct LimitReader<'a, R: ReadValue> {
     inner: &'a mut R,
     end: u64,
+
+    /// True if `end` is the end of a length-delimited field or of an input of
+    /// known length. False if the reader reads "until the input ends".
+    limited: bool,
 }
 
 impl<'a, R: ReadValue> LimitReader<'a, R> {
@@ -260,6 +308,18 @@ impl<'a, R: ReadValue> LimitReader<'a, R> {
         Self {
             end: inner.position().saturating_add(len),
             inner,
+            limited: true,
+        }
+    }
+
+    /// Create a reader for a top-level message, which reads up to the end of
+    /// `inner`.
+    pub fn top_level(inner: &'a mut R) -> Self {
+        let input_len = inner.input_len();
+        Self {
+            end: input_len.unwrap_or(u64::MAX),
+            inner,
+            limited: input_len.is_some(),
         }
     }
 
@@ -270,14 +330,25 @@ impl<'a, R: ReadValue> LimitReader<'a, R> {
         LimitReader {
             end: self.inner.position().saturating_add(len).min(self.end),
             inner: self.inner,
+            limited: true,
+        }
+    }
+
+    /// Check that `len` more bytes can be read before the limit is reached.
+    pub fn check_has_bytes_u64(&self, len: u64) -> Result<(), ProtobufError> {
+        match self.position().checked_add(len) {
+            Some(end) if end <= self.end => Ok(()),
+            _ => Err(ProtobufError::new(ErrorKind::Eof)),
         }
     }
 
     fn check_has_bytes(&self, len: usize) -> Result<(), ProtobufError> {
-        match self.position().checked_add(len as u64) {
-            Some(end) if end <= self.end => Ok(()),
-            _ => Err(ProtobufError::new(ErrorKind::Eof)),
-        }
+        self.check_has_bytes_u64(len as u64)
+    }
+
+    /// Return true if this reader has a limit other than "until the input ends".
+    fn is_limited(&self) -> bool {
+        self.limited
     }
 }
 
@@ -299,7 +370,16 @@ impl<'a, R: ReadValue> ReadValue for LimitReader<'a, R> {
     fn read_varint(&mut self) -> Result<u64, ProtobufError> {
         // Varints are at least 1 byte long, and can be up to 10.
         self.check_has_bytes(1)?;
-        self.inner.read_varint()
+        match self.inner.read_varint() {
+            // `Eof` is how the end of a message is reported. If the input
+            // ends before the limit of this reader is reached, the enclosing
+            // length-delimited field is truncated, which is an error rather
+            // than the end of the message.
+            Err(err) if matches!(err.kind(), ErrorKind::Eof) && self.is_limited() => Err(
+                ProtobufError::new(ErrorKind::IoError(std::io::ErrorKind::UnexpectedEof.into())),
+            ),
+            result => result,
+        }
     }
 
     fn read_bytes(
@@ -328,6 +408,10 @@ impl<'a, R: ReadValue> ReadValue for LimitReader<'a, R> {
 
     fn position(&self) -> u64 {
         self.inner.position()
+    }
+
+    fn input_len(&self) -> Option<u64> {
+        self.inner.input_len()
     }
 }
 
